@@ -206,6 +206,11 @@ func Read(fd int, b []byte) (int, error) {
 		}
 		return n, err
 	}
+	if h := RealReadHook; h != nil {
+		n, err := syscall.Read(fd, b)
+		h(fd, b, n, err)
+		return n, err
+	}
 	return syscall.Read(fd, b)
 }
 
@@ -325,6 +330,8 @@ func Close(fd int) error {
 		v.Closed = true
 		v.Log = append(v.Log, "close")
 		v.mu.Unlock()
+	} else if h := RealCloseHook; h != nil {
+		h(fd)
 	}
 	return syscall.Close(fd)
 }
